@@ -78,6 +78,20 @@ CLAIMS["C20"] = dict(level="fault_enumeration", tech="TLA+ allocation-discipline
          "before return, failure indication and cleared dest after a failed request",
     ref="§3 C20", note="single failures; call sites reached through the listed scenarios (coverage.scenario_list); libc-internal allocations are not failed; trusted: -Wl,--wrap interposition, harness/halloc.c")
 
+CLAIMS["C16"] = dict(level="model_checking", tech="TLA+ contract of qsort_s/bsearch_s (SortContract.tla, Sort.tla) checked by TLC + TLC-enumerated key patterns replayed into the real functions with a recording comparator + TLC trace validation",
+    text="TLC enumerates every key pattern of length 0..MaxN over a small key set (with duplicates), checks the contract for consistency and emits each "
+         "case; hsort runs qsort_s with tagged elements flush against inaccessible pages and a comparator that records every pair of pointers and the "
+         "context it receives, and bsearch_s on the sorted arrays for present, absent and out-of-range keys; TraceSort.tla accepts a run only if the "
+         "result is a permutation of the tagged input ordered by key, every comparison pointed at elements of the array with the caller's context, "
+         "and bsearch_s returned a matching element iff one exists; larger arrays (to 1500 elements: insertion-sort / median / recursion switches) come from a seeded sweep",
+    ref="§3 C16", note="all arrays of <= 7 (quick) elements over 3 keys exhaustively, longer ones seeded; element sizes 1..24 incl. non-word sizes; inconsistent comparators only for memory safety; trusted: TLC, harness/hsort.c (records only)")
+CLAIMS["C17"] = dict(level="model_checking", tech="UAX #15 written in TLA+ (NormDefs.tla, tables generated into UCD14.tla) with its laws checked by TLC (Norm.tla) + sweep of every mapped code point / composing pair / Hangul / seeded strings through wcsnorm_s, iswfc, towfc_s, wcsfc_s + TLC trace validation",
+    text="decomposition (recursive + Hangul arithmetic), canonical ordering and composition with the blocking rule are TLA+ operators; TLC checks "
+         "idempotence and NFD/NFC agreement on all short strings over critical code points; every result of the real wcsnorm_s is compared by "
+         "TraceNorm.tla with NFD/NFC of those operators (content, terminator, reported length, cleared slack, failure only when the documented room "
+         "is missing), each result is normalized again, out-of-range values must be rejected without a fault, and the emitted fold lengths must match iswfc",
+    ref="§3 C17", note="oracle tables from python3 unicodedata 14.0 (independent of the library's generated headers); quick: all mapped code points + 6000 sampled others, thorough: every assigned code point; compat forms (NFKD/NFKC) are not built in this configuration; fold mapping values are not compared with CaseFolding.txt; trusted: TLC, harness/hnorm.c")
+
 NOT_YET = {
 }
 
